@@ -98,11 +98,11 @@ FamPert(n, W) ==
 \* ---- FamPlace: components, workplaces, facilities ---------------------------------
 \* 2 components (flat, or c1 parent of c2), 2 workplaces (optionally wp1 -> wp2 conveyor),
 \* one facility each; tasks t1 (c1, needs facility), t2 (c2, needs facility), t3 (c1 or c2)
-FamPlace(CAP, SP) ==
+FamPlace(CAP, SP, C3, CH) ==
   { Cfg("place", 1,
         << Task(2, 0, FALSE, 1, TRUE, 1, <<1>>, w1, 0),
            Task(1, 0, FALSE, 1, TRUE, 2, <<1>>, w2, 1),
-           Task(1, 0, FALSE, 1, nf3, c3, <<1>>, <<1, 2>>, 2) >>,
+           Task(1, 0, FALSE, 1, nf3 /\ c3 # 0, c3, <<1>>, IF c3 = 0 THEN <<>> ELSE <<1, 2>>, 2) >>,
         d, 1,
         << Worker(1, <<1, 1, 1>>, <<1, 1>>, 1, FALSE, <<>>, 0),
            Worker(1, <<1, 1, 1>>, <<1, 1>>, 1, FALSE, <<>>, 0) >>,
@@ -110,9 +110,63 @@ FamPlace(CAP, SP) ==
         << [cap |-> cap[1], inputs |-> <<>>], [cap |-> cap[2], inputs |-> inp] >>,
         << [space |-> sp[1], children |-> ch], [space |-> sp[2], children |-> <<>>] >>,
         Opt(<<>>, FALSE, "TSLACK", 14))
-    : w1 \in {<<1>>, <<1, 2>>}, w2 \in {<<2>>, <<2, 1>>}, nf3 \in BOOLEAN, c3 \in {1, 2},
+    : w1 \in {<<1>>, <<1, 2>>}, w2 \in {<<2>>, <<2, 1>>}, nf3 \in BOOLEAN, c3 \in C3,
       d \in {<<>>, <<<<1, 2, "FS">>>>, <<<<1, 3, "FS">>>>},
-      cap \in [1..2 -> CAP], sp \in [1..2 -> SP], inp \in {<<>>, <<1>>}, ch \in {<<>>, <<2>>} }
+      cap \in [1..2 -> CAP], sp \in [1..2 -> SP], inp \in {<<>>, <<1>>}, ch \in CH }
+
+\* ---- FamSort: inputs of the four sorting functions ---------------------------------------
+\* A sort case is a small cfg (only the lists the function looks at are populated), the
+\* function, the rule mode, the task whose name is passed (t) and the target workplace (p),
+\* plus - for task lists - the PERT / log values the task keys read.
+MiniTasks(n) == [t \in 1..n |-> PlainTask(1, t - 1)]
+SortCase(fn, mode, t, p, c, vals) == [fn |-> fn, mode |-> mode, t |-> t, p |-> p, cfg |-> c, vals |-> vals]
+NoVals == [est |-> <<>>, lst |-> <<>>, rem |-> <<>>, rc |-> <<>>, cpl |-> 0, avail |-> <<>>]
+
+SortWorkerCases(n, S1, S2, C, M) ==
+  { SortCase("worker", mode, 1, p,
+             Cfg("sortw", 1, MiniTasks(2), <<>>, 1,
+                 [i \in 1..n |-> Worker(1, <<w[i][1], w[i][2]>>, <<>>, w[i][3], FALSE, <<>>, w[i][4])],
+                 <<>>, <<[cap |-> 2, inputs |-> <<>>], [cap |-> 2, inputs |-> <<>>]>>, <<>>,
+                 Opt(<<>>, FALSE, "TSLACK", 5)), NoVals)
+    : w \in [1..n -> S1 \X S2 \X C \X M], mode \in WorkerRules, p \in {0, 1} }
+
+SortFacilityCases(n, S1, S2, C) ==
+  { SortCase("facility", mode, 1, 0,
+             Cfg("sortf", 1, MiniTasks(2), <<>>, 1, <<>>,
+                 [i \in 1..n |-> Facility(1, <<f[i][1], f[i][2]>>, f[i][3], FALSE, <<>>)],
+                 <<[cap |-> 2, inputs |-> <<>>]>>, <<>>, Opt(<<>>, FALSE, "TSLACK", 5)), NoVals)
+    : f \in [1..n -> S1 \X S2 \X C], mode \in WorkerRules }
+
+SortTaskCases(n, V, W) ==
+  { SortCase("task", mode, 0, 0,
+             Cfg("sortt", 1, [t \in 1..n |-> PlainTask(x[t][3], t - 1)], <<>>, 1, <<>>, <<>>, <<>>, <<>>,
+                 Opt(<<>>, FALSE, mode, 5)),
+             [est |-> [t \in 1..n |-> x[t][1]], lst |-> [t \in 1..n |-> x[t][2]],
+              rem |-> [t \in 1..n |-> 3 - x[t][3]], rc |-> [t \in 1..n |-> x[t][2]], cpl |-> 3,
+              avail |-> <<>>])
+    : x \in [1..n -> V \X V \X W], mode \in TaskRules }
+
+SortWorkplaceCases(n, A, S) ==
+  { SortCase("workplace", mode, 1, 0,
+             Cfg("sortp", 1, MiniTasks(1), <<>>, 1, <<>>,
+                 [i \in 1..(2 * n) |-> Facility((i + 1) \div 2, <<x[(i + 1) \div 2][IF i % 2 = 1 THEN 2 ELSE 3]>>, 1, FALSE, <<>>)],
+                 [i \in 1..n |-> [cap |-> 4, inputs |-> <<>>]], <<>>, Opt(<<>>, FALSE, "TSLACK", 5)),
+             [est |-> <<>>, lst |-> <<>>, rem |-> <<>>, rc |-> <<>>, cpl |-> 0,
+              avail |-> [i \in 1..n |-> x[i][1]]])
+    : x \in [1..n -> A \X S \X S], mode \in {"FSS", "SSP"} }
+
+SortFamily(tier) ==
+  IF tier = 1
+  THEN SortWorkerCases(2, {-1, 0, 1, 2}, {0}, {0, 1}, {0, 1, 2})
+       \cup SortWorkerCases(3, {-1, 2}, {0}, {0, 1}, {0, 1})
+       \cup SortFacilityCases(3, {-1, 0, 2}, {0, 1}, {0, 1})
+       \cup SortTaskCases(3, {0, 1}, {1, 2})
+       \cup SortWorkplaceCases(2, {0, 1, 2}, {-1, 0, 1})
+       \cup SortWorkplaceCases(3, {0, 1}, {0, 1})
+  ELSE SortWorkerCases(3, {-1, 0, 1, 2}, {0, 1}, {0, 1}, {0, 1, 2})
+       \cup SortFacilityCases(3, {-1, 0, 1, 2}, {0, 1, 2}, {0, 1, 2})
+       \cup SortTaskCases(3, {0, 1, 2}, {1, 2, 3})
+       \cup SortWorkplaceCases(3, {0, 1, 2}, {-1, 0, 1})
 
 \* ---- the named families and their bounds per tier -------------------------------------
 Family(name, tier) ==
@@ -134,5 +188,9 @@ Family(name, tier) ==
                          ELSE FamAbsence({<<>>, <<0>>, <<1>>, <<1, 2>>, <<0, 1, 2>>, <<2, 4>>,
                                           <<0, 3, 30>>, <<5, 6, 7>>})
     [] name = "pert"  -> IF tier = 1 THEN FamPert(3, {0, 1, 2}) ELSE FamPert(4, {0, 1, 2})
-    [] name = "place" -> IF tier = 1 THEN FamPlace({2, 3}, {1, 2}) ELSE FamPlace({2, 3, 4}, {1, 2})
+    [] name = "place" -> IF tier = 1 THEN FamPlace({2, 3}, {1, 2}, {0, 1, 2}, {<<>>, <<2>>})
+                         ELSE FamPlace({2, 3, 4}, {1, 2}, {0, 1, 2}, {<<>>, <<2>>})
+    \* flat products whose components carry one task each (no known placement finding applies)
+    [] name = "placeflat" -> IF tier = 1 THEN FamPlace({2, 3}, {1, 2}, {0}, {<<>>})
+                             ELSE FamPlace({1, 2, 3, 4}, {1, 2, 3}, {0}, {<<>>})
 =============================================================================
